@@ -102,10 +102,10 @@ def run_ph(case, ctx):
         got = det.drift_state
         exp = "drift" if last["alarm"] else None
         if got != exp:
-            exact_zero_tie = cfg["threshold"] == 0 and last["page_hinkley_differences"] == 0.0
-            # the running mean is a quotient: Page-Hinkley arithmetic is never exact and ties are not judged - except the tie
-            # 0 > 0 (threshold 0 and the sum at its extreme), which is exact by construction on both sides
-            if last["margin"] <= 1e-9 * scale and not exact_zero_tie:
+            # the running mean is a quotient: Page-Hinkley arithmetic is never exact, so a model-side tie says nothing about the
+            # code's side (with threshold 0 the decision hinges on whether the sum is exactly at its extreme): not judged here;
+            # strictness of the comparison is checked below on the detector's OWN reported numbers instead
+            if last["margin"] <= 1e-9 * scale:
                 ctx.near_tie()
             ctx.violation("decision", "C04:ph:decision",
                           f"sample {t} (epoch {epoch_no}, n={len(epoch)}): model {exp!r} (difference {last['page_hinkley_differences']:.6g} vs theta {last['theta_threshold']:.6g}), detector {got!r}; cfg={cfg}")
@@ -116,6 +116,14 @@ def run_ph(case, ctx):
         if len(df) != len(epoch):
             ctx.violation("stats", "C04:ph:stats_len",
                           f"to_dataframe has {len(df)} rows, current epoch has {len(epoch)} observations (sample {t}, epoch {epoch_no})")
+            raise EndRun()
+        # internal consistency on the detector's own numbers (no model noise involved): the test "exceeds" is strict
+        own_diff, own_theta = _f(df["page_hinkley_differences"].iloc[-1]), _f(df["theta_threshold"].iloc[-1])
+        own_flag = bool(np.ravel(df["drift_detected"].iloc[-1])[0])
+        if own_flag != (own_diff > own_theta) or (got == "drift") != (own_flag and len(epoch) > cfg["burn_in"]):
+            ctx.violation("decision", "C04:ph:own_numbers",
+                          f"sample {t} (epoch {epoch_no}, n={len(epoch)}): detector reports difference {own_diff!r}, threshold {own_theta!r}, drift_detected={own_flag}, "
+                          f"drift_state={got!r}: the documented test is difference > threshold after burn_in {cfg['burn_in']}; cfg={cfg}")
             raise EndRun()
         check_rows = range(len(epoch)) if (exp == "drift" or t == len(case["events"]) - 1) else [len(epoch) - 1]
         for i in check_rows:
